@@ -297,6 +297,17 @@ func isQuiet(info *types.Info, s ast.Stmt) bool {
 			return false
 		}
 		exprs = []ast.Expr{t.X}
+	case *ast.DeferStmt:
+		// a deferred empty (or quiet) function literal, or a deferred quiet call
+		if fl, ok := t.Call.Fun.(*ast.FuncLit); ok {
+			for _, st := range fl.Body.List {
+				if !isQuiet(info, st) {
+					return false
+				}
+			}
+			return len(t.Call.Args) == 0
+		}
+		exprs = []ast.Expr{t.Call}
 	default:
 		return false
 	}
